@@ -180,6 +180,21 @@ def oracle(ctx, enc_inputs, dec_inputs, ints):
         if back != h:
             ctx.violation("json_b64decode(json_b64encode(h)) != h", {"op": "json_b64", "input": repr(h), "output": repr(back)})
             break
+        # decoding is a function of the segment: a second decode of the same segment returns an equal, fresh object even
+        # after the caller changed the first result (e.g. set a kid on a deserialized header)
+        if isinstance(back, dict):
+            seg = util.json_b64encode(h)
+            first = util.json_b64decode(seg)
+            first["__mutated__"] = True
+            for k_ in list(first):
+                if k_ != "__mutated__" and ctx.rng.random() < 0.5:
+                    del first[k_]
+            second = util.json_b64decode(seg)
+            ctx.count("json-b64-repeat", repr(h), True, "ok" if second == h else "diff")
+            if second != h:
+                ctx.violation("a repeated json_b64decode of the same segment does not return the encoded object (result shared with / changed by an earlier caller)",
+                              {"op": "json_b64_repeat", "input": repr(h), "second_decode": repr(second)})
+                break
 
 
 def _rand_json(rng, depth):
